@@ -134,7 +134,8 @@ def run(c, prop="C03"):
                                   keyscap=rng.choice([40, 40, 12, 24]), origin="random history"))
             else:
                 cases.append(dict(nk=40, hasher=h, coarse=(i % 3 == 1), steps=rng.choice([30, 60]), seed=rng.getrandbits(40),
-                                  branch=True, live=1000, keyscap=rng.choice([40, 10, 20]), origin="branching history"))
+                                  branch=True, live=1000, keyscap=rng.choice([40, 10, 20]), init=rng.choice([0, 0, 14, 30]),
+                                  origin="branching history"))
     summary, out = c.harness("c03", cases, timeout=3000)
     c.cov["evaluations"] += summary["ops"]
     c.extra["histories"] = summary["traces"]
